@@ -205,6 +205,28 @@ func RunNil(c *core.Ctx) {
 					c.Fail("NIL.recv", con, fmt.Sprintf("a nil *%s (the read-only empty message, e.g. Type().Zero() or Get of an unset message field) is dereferenced by %s without a nil test at %d site(s), first %s", m.GoName, name, len(sites), types.ExprString(sites[0].(ast.Expr))), pos(c, g, sites[0].Pos()), src)
 				}
 			}
+			// ---- NIL.recv (receiver kind): every method of the fast-reflection type has a pointer receiver. A value
+			// receiver makes the call itself dereference the receiver: on the nil (read-only empty) message it panics
+			// before the body runs (and mutators would write to a copy).
+			{
+				var names []string
+				for n := range m.Methods {
+					names = append(names, n)
+				}
+				sort.Strings(names)
+				var bad []string
+				for _, n := range names {
+					fd := m.Methods[n]
+					if fd == nil || fd.Recv == nil || len(fd.Recv.List) != 1 {
+						continue
+					}
+					if _, isPtr := info.TypeOf(fd.Recv.List[0].Type).(*types.Pointer); !isPtr {
+						bad = append(bad, n)
+					}
+				}
+				c.Check(len(bad) == 0, "NIL.recv", m.Q()+" receiver kinds", fmt.Sprintf("%d methods, all with pointer receivers", len(names)),
+					fmt.Sprintf("methods %v of the fast-reflection type have value receivers: calling them on the nil message panics", bad), pos(c, g, m.Methods[names[0]].Pos()), src)
+			}
 			// ---- NIL.msgmut: a mutator of the message must fail on the nil (read-only empty) message: it may not
 			// give the receiver a fresh value (the write would land in a throw-away message) nor leave when it is nil
 			for _, name := range []string{"Set", "Mutable", "Clear", "SetUnknown"} {
